@@ -315,7 +315,12 @@ func (c c09Case) taintOf(evs []trace.StrEvent, submitted string, window, digests
 		c2.Key[0] ^= 0x5a
 		c2.Key[len(c2.Key)-1] ^= 0xa5
 	}
-	_, window2, digests2 := c2.expected()
+	e2, window2, digests2 := c2.expected()
+	// the same protocol as for the case itself: the expected code is accepted once first (state a validator keeps
+	// about its last acceptance then belongs to this secret), and the case's own acceptance is redone afterwards
+	c2.run(e2)
+	e1, _, _ := c.expected()
+	defer c.run(e1)
 	call := c2.prepare(submitted)
 	tr := traced(func() { call() })
 	for _, e := range tr.str {
